@@ -138,6 +138,12 @@ def run_check(mod, pid, tier, seed, t0, skip_lean=False):
     except C.DriverError as ex:
         mismatches = []
         broken.append({"kind": "driver", "name": "Driver.lean", "message": str(ex)[-600:]})
+    except Exception as ex:  # noqa: BLE001
+        # the harness itself tripped over the implementation's behaviour (an unexpected exception class or shape):
+        # the correspondence no longer checks; the failing-input search below decides what to report
+        mismatches = []
+        broken.append({"kind": "correspondence", "name": f"{pid} harness exception",
+                       "message": "".join(traceback.format_exception_only(type(ex), ex))[-300:] + traceback.format_exc()[-700:]})
     for mm in mismatches:
         if os.environ.get("FV_DEBUG"):
             print("MISMATCH", str(mm.get("what"))[:700])
